@@ -11,8 +11,10 @@ ASSUMPTIONS = [
     "parent; C08_forest_spans: forest_ok(strict) on an impl forest gives the same for every tree of that forest",
     "the LR driver/scanner/ws+LAYOUT layout models are tied to /repo by comparing trees with positions and "
     "layout_content per leaf on generated grammars with empty productions at the beginning, middle and end",
-    "losslessness (layout_content + value reproduce the input) and positions seen by actions/obj are checked on the "
-    "impl's output for every generated case (test), not proved for all inputs",
+    "C08_lr_lossless / C08_lr_lossless_strings: the tokens the LR driver model shifts, with their layout spans, tile "
+    "the input, and for every text s the concatenation of s[layout span] + s[start:end] over them is s[pos0:last end]; "
+    "that the impl's strings are those slices (value == input[start:end], layout+value == input prefix) and the "
+    "positions seen by actions/obj are checked on the impl's output for every generated case (test)",
     "GLR span failures are attributed to the known finding only when the frozen baseline implementation fails identically",
 ]
 
